@@ -363,7 +363,7 @@ def prop_history(r):
 
 SUBS = [
     Sub("history", lambda tier: G.history(tier), prop_history,
-        budget=dict(quick=1500, thorough=40000), floor=dict(quick=250, thorough=7500),
+        budget=dict(quick=3000, thorough=40000), floor=dict(quick=500, thorough=7500),
         nontrivial_rule=">= 2 kernels were merged and checked and the PE holds at least one mux (different routing met)"),
     Sub("history_exhaustive", None, prop_history, budget=dict(quick=0, thorough=0),
         exhaustive=G.exhaustive_histories, exhaustive_only=True, floor=dict(quick=12, thorough=1100),
